@@ -97,7 +97,10 @@ func (p Package) ownsGlobal(name string) bool {
 	if p.path == "" {
 		return true
 	}
-	return strings.HasPrefix(name, p.path+".")
+	// pkgpath.Ident: what follows the path is an identifier, so a name of
+	// package "pkgpath.v2" (or "pkgpath.x/y") is not ours.
+	rest, ok := strings.CutPrefix(name, p.path+".")
+	return ok && !strings.ContainsAny(rest, "./")
 }
 
 // NewVar creates a new global variable.
